@@ -419,6 +419,225 @@ theorem cso_cuboid_cuboid (he1 he2 : V3 K) (h1 : 0 ≤ he1.x ∧ 0 ≤ he1.y ∧
 
 example : (0:ℚ) ≤ 1 ∧ (0:ℚ) ≤ 2 ∧ (0:ℚ) ≤ 1/2 := by norm_num
 
+/-! ## cylinder / cone features contain a support point up to the documented `try_normalize(eps)` tolerance -/
+
+private theorem eps_pos' : letI := fieldNum K sq; (0:K) < eps := by
+  simp only [eps, fieldNum_lit]
+  have : (0:ℚ) < mkRat 1 4503599627370496 := by rw [Rat.mkRat_eq_div]; norm_num
+  exact_mod_cast this
+
+/-- `dir2 = try_normalize((dir.x, dir.z), eps).unwrap_or((1,0))` is a unit vector; its gain
+`g = dir.x·dir2.x + dir.z·dir2.y` equals the radial norm `n` when the normalisation succeeds (`eps < n`) or when the
+radial part is exactly zero, and is never more than `2·eps` below `n`. -/
+private theorem capDir_gain (hs : LawfulSqrt sq) (dir : V3 K) :
+    letI := fieldNum K sq
+    let n := sq (dir.x * dir.x + dir.z * dir.z)
+    let g := dir.x * (capDir dir).x + dir.z * (capDir dir).y
+    (capDir dir).x * (capDir dir).x + (capDir dir).y * (capDir dir).y = 1 ∧ 0 ≤ n ∧ n * n = dir.x * dir.x + dir.z * dir.z ∧
+      n - 2 * eps ≤ g ∧ ((eps < n ∨ n = 0) → g = n) := by
+  letI : Num K := fieldNum K sq
+  intro n g
+  have h0 : 0 ≤ dir.x * dir.x + dir.z * dir.z := by nlinarith [mul_self_nonneg dir.x, mul_self_nonneg dir.z]
+  have hnn : n * n = dir.x * dir.x + dir.z * dir.z := hs.sq_mul _ h0
+  have hn0 : 0 ≤ n := hs.nonneg _ h0
+  have he := eps_pos' sq
+  by_cases c : sq (dir.x * dir.x + dir.z * dir.z) ≤ @eps K (fieldNum K sq)
+  · have hcap : capDir dir = (⟨1, 0⟩ : V2 K) := by
+      simp [capDir, tryNormalize2, V2.norm, V2.normSq, V2.dot, fieldNum_sqrt, c]
+    have hg : g = dir.x := by simp only [g, hcap]; ring
+    have hx : -n ≤ dir.x := by
+      by_contra hlt
+      push Not at hlt
+      nlinarith [mul_self_nonneg dir.z]
+    refine ⟨by rw [hcap]; norm_num, hn0, hnn, by rw [hg]; linarith, ?_⟩
+    rintro (h | h)
+    · exact absurd c (not_le.2 h)
+    · rw [hg, h]
+      rw [h] at hnn
+      nlinarith [mul_self_nonneg dir.x, mul_self_nonneg dir.z]
+  · have hn : 0 < n := lt_trans he (not_le.1 c)
+    have hne := ne_of_gt hn
+    have hcap : capDir dir = (⟨dir.x / n, dir.z / n⟩ : V2 K) := by
+      simp only [capDir, tryNormalize2, V2.norm, V2.normSq, V2.dot, fieldNum_sqrt, c, if_false, Option.getD_some, V2.sdiv]
+      rfl
+    have hg : g = n := by
+      simp only [g, hcap]
+      field_simp
+      linarith
+    refine ⟨?_, hn0, hnn, by rw [hg]; linarith, fun _ => hg⟩
+    rw [hcap]
+    have : dir.x / n * (dir.x / n) + dir.z / n * (dir.z / n) = (dir.x * dir.x + dir.z * dir.z) / (n * n) := by
+      field_simp
+    rw [this, ← hnn, div_self (mul_ne_zero hne hne)]
+
+/-- **C10 (cylinder `local_support_feature` holds a support point, up to the `try_normalize(eps)` tolerance)**: for
+`half_height ≥ 0`, `radius ≥ 0` and every direction, some vertex `v` of the returned feature is a point of the cylinder with
+`dir·q ≤ dir·v + 2·eps·r` for every point `q` of the cylinder; and `v` is an *exact* support point whenever the radial part
+`(dir.x, dir.z)` of the direction is exactly zero or its norm exceeds `eps = f64::EPSILON` (the `try_normalize` guard). -/
+theorem cylinder_feature_near_support (hs : LawfulSqrt sq) (hh r : K) (dir : V3 K) (hh0 : 0 ≤ hh) (hr : 0 ≤ r) :
+    letI := fieldNum K sq
+    ∃ v ∈ (cylinderFeature hh r dir).verts, (Cylinder.mk hh r).Mem v ∧
+      (∀ q, (Cylinder.mk hh r).Mem q → dir.dot q ≤ dir.dot v + 2 * eps * r) ∧
+      ((eps < sq (dir.x * dir.x + dir.z * dir.z) ∨ sq (dir.x * dir.x + dir.z * dir.z) = 0) →
+        IsSupport3 sq (Cylinder.mk hh r).Mem dir v) := by
+  letI : Num K := fieldNum K sq
+  obtain ⟨hu, hn0, hnn, hgain, hexact⟩ := capDir_gain sq hs dir
+  set n := sq (dir.x * dir.x + dir.z * dir.z) with hn
+  set d2 := @capDir K (fieldNum K sq) dir with hd2
+  -- the candidate: radial part `dir2·r`, height on the side of `dir.y`
+  let v : V3 K := ⟨d2.x * r, if dir.y < 0 then -hh else hh, d2.y * r⟩
+  have hvmem : (Cylinder.mk hh r).Mem v := by
+    refine ⟨?_, ?_⟩
+    · simp only [v]; split_ifs <;> constructor <;> linarith
+    · simp only [v]; nlinarith [hu]
+  have hbound : ∀ q, (Cylinder.mk hh r).Mem q →
+      @V3.dot K (fieldNum K sq) dir q ≤ @V3.dot K (fieldNum K sq) dir v + r * (n - (dir.x * d2.x + dir.z * d2.y)) := by
+    rintro q ⟨hy, hq⟩
+    have h2 := dot_le2 dir.x dir.z q.x q.z n r hn0 hr hnn hq
+    have h1 : dir.y * q.y ≤ dir.y * (if dir.y < 0 then -hh else hh) := by
+      split_ifs with c
+      · nlinarith [hy.1, hy.2]
+      · push Not at c; nlinarith [hy.1, hy.2]
+    simp only [V3.dot, v]
+    nlinarith
+  have hv_in : v ∈ (cylinderFeature hh r dir).verts := by
+    unfold cylinderFeature
+    simp only [copysign_field, abs_of_nonneg hh0]
+    by_cases c1 : @nabs K (fieldNum K sq) dir.y < @lit K (fieldNum K sq) 1 2
+    · simp only [c1, if_true, v, ← hd2]
+      by_cases c2 : dir.y < 0
+      · simp [c2]
+      · simp [c2]
+    · by_cases c2 : dir.y < 0
+      · simp [c1, c2, v, ← hd2]
+      · simp [c1, c2, v, ← hd2]
+  refine ⟨v, hv_in, hvmem, ?_, ?_⟩
+  · intro q hq
+    have := hbound q hq
+    have : r * (n - (dir.x * d2.x + dir.z * d2.y)) ≤ 2 * @eps K (fieldNum K sq) * r := by nlinarith
+    linarith [hbound q hq]
+  · intro hcase
+    refine ⟨hvmem, fun q hq => ?_⟩
+    have := hbound q hq
+    rw [hexact hcase] at this
+    linarith
+
+example : (0:ℚ) ≤ 1 ∧ (0:ℚ) ≤ 2 := by norm_num
+
+private theorem cone_bound' (hh r n dx dy dz qx qy qz : K) (hh0 : 0 < hh) (hr : 0 ≤ r) (hn : 0 ≤ n)
+    (hnn : n * n = dx * dx + dz * dz) (hy : -hh ≤ qy ∧ qy ≤ hh)
+    (hq : (qx * qx + qz * qz) * ((2 * hh) * (2 * hh)) ≤ (r * r) * ((hh - qy) * (hh - qy))) :
+    dx * qx + dy * qy + dz * qz ≤ max (dy * hh) (n * r - dy * hh) := by
+  have hs : 0 ≤ hh - qy := by linarith [hy.2]
+  -- L·2hh ≤ n·r·(hh - qy)
+  have hL : (dx * qx + dz * qz) * (2 * hh) ≤ n * r * (hh - qy) := by
+    apply le_of_mul_self_le (mul_nonneg (mul_nonneg hn hr) hs)
+    have c := cs2 dx dz qx qz
+    have h4 : 0 ≤ (2 * hh) * (2 * hh) := mul_self_nonneg _
+    calc (dx * qx + dz * qz) * (2 * hh) * ((dx * qx + dz * qz) * (2 * hh))
+        = ((dx * qx + dz * qz) * (dx * qx + dz * qz)) * ((2 * hh) * (2 * hh)) := by ring
+      _ ≤ ((dx * dx + dz * dz) * (qx * qx + qz * qz)) * ((2 * hh) * (2 * hh)) :=
+          mul_le_mul_of_nonneg_right c h4
+      _ = (n * n) * ((qx * qx + qz * qz) * ((2 * hh) * (2 * hh))) := by rw [hnn]; ring
+      _ ≤ (n * n) * ((r * r) * ((hh - qy) * (hh - qy))) :=
+          mul_le_mul_of_nonneg_left hq (mul_self_nonneg n)
+      _ = n * r * (hh - qy) * (n * r * (hh - qy)) := by ring
+  -- 2hh·(d·q) ≤ 2hh·A + s·(B - A),  s = hh - qy ∈ [0, 2hh]
+  have h2 : 0 < 2 * hh := by linarith
+  rcases le_total (n * r - dy * hh) (dy * hh) with hAB | hAB
+  · rw [max_eq_left hAB]
+    have : (dx * qx + dy * qy + dz * qz) * (2 * hh) ≤ (dy * hh) * (2 * hh) := by
+      nlinarith [mul_nonneg hs (sub_nonneg.2 hAB)]
+    exact le_of_mul_le_mul_right this h2
+  · rw [max_eq_right hAB]
+    have hs2 : 0 ≤ 2 * hh - (hh - qy) := by linarith [hy.1]
+    have : (dx * qx + dy * qy + dz * qz) * (2 * hh) ≤ (n * r - dy * hh) * (2 * hh) := by
+      nlinarith [mul_nonneg hs2 (sub_nonneg.2 hAB)]
+    exact le_of_mul_le_mul_right this h2
+
+
+/-- **C10 (cone `local_support_feature` holds a support point, up to the `try_normalize(eps)` tolerance)**: for
+`half_height > 0`, `radius ≥ 0` and every direction, some vertex `v` of the returned feature (the generator
+rim-point–apex for `dir.y > 0`, the base square otherwise) is a point of the cone with `dir·q ≤ dir·v + 2·eps·r` for every
+point `q` of the cone, and `v` is an exact support point whenever the radial part of the direction is exactly zero or its
+norm exceeds `eps`. -/
+theorem cone_feature_near_support (hs : LawfulSqrt sq) (hh r : K) (dir : V3 K) (hh0 : 0 < hh) (hr : 0 ≤ r) :
+    letI := fieldNum K sq
+    ∃ v ∈ (coneFeature hh r dir).verts, (Cone.mk hh r).Mem v ∧
+      (∀ q, (Cone.mk hh r).Mem q → dir.dot q ≤ dir.dot v + 2 * eps * r) ∧
+      ((eps < sq (dir.x * dir.x + dir.z * dir.z) ∨ sq (dir.x * dir.x + dir.z * dir.z) = 0) →
+        IsSupport3 sq (Cone.mk hh r).Mem dir v) := by
+  letI : Num K := fieldNum K sq
+  obtain ⟨hu, hn0, hnn, hgain, hexact⟩ := capDir_gain sq hs dir
+  have he := eps_pos' sq
+  set n := sq (dir.x * dir.x + dir.z * dir.z) with hn
+  set d2 := @capDir K (fieldNum K sq) dir with hd2
+  let rim : V3 K := ⟨d2.x * r, -hh, d2.y * r⟩
+  let apex : V3 K := ⟨0, hh, 0⟩
+  have hrim : (Cone.mk hh r).Mem rim := by
+    refine ⟨⟨le_refl _, by linarith⟩, ?_⟩
+    simp only [rim, fieldNum_two]
+    have : d2.x * r * (d2.x * r) + d2.y * r * (d2.y * r) = r * r := by linear_combination (r * r) * hu
+    rw [this]
+    apply le_of_eq; ring
+  have hapex : (Cone.mk hh r).Mem apex := by
+    refine ⟨⟨by linarith, le_refl _⟩, ?_⟩
+    simp only [apex, fieldNum_two]
+    apply le_of_eq; ring
+  have bound : ∀ q, (Cone.mk hh r).Mem q →
+      @V3.dot K (fieldNum K sq) dir q ≤ max (dir.y * hh) (n * r - dir.y * hh) := by
+    rintro q ⟨hy, hq⟩
+    simp only [fieldNum_two] at hq
+    exact cone_bound' hh r n dir.x dir.y dir.z q.x q.y q.z hh0 hr hn0 hnn hy hq
+  have hdrim : @V3.dot K (fieldNum K sq) dir rim = r * (dir.x * d2.x + dir.z * d2.y) - dir.y * hh := by
+    simp only [V3.dot, rim]; ring
+  have hdapex : @V3.dot K (fieldNum K sq) dir apex = dir.y * hh := by
+    simp only [V3.dot, apex]; ring
+  have hslack : r * (n - (dir.x * d2.x + dir.z * d2.y)) ≤ 2 * @eps K (fieldNum K sq) * r := by nlinarith
+  have hslack0 : 0 ≤ 2 * @eps K (fieldNum K sq) * r := by positivity
+  by_cases c : 0 < dir.y
+  · have hverts : (coneFeature hh r dir).verts = [rim, apex] := by
+      simp only [coneFeature, c, if_true, rim, apex, ← hd2]
+    rcases le_total (n * r - dir.y * hh) (dir.y * hh) with hAB | hAB
+    · refine ⟨apex, by rw [hverts]; simp, hapex, ?_, ?_⟩
+      · intro q hq
+        have := bound q hq
+        rw [max_eq_left hAB] at this
+        rw [hdapex]; linarith
+      · intro _
+        refine ⟨hapex, fun q hq => ?_⟩
+        have := bound q hq
+        rw [max_eq_left hAB] at this
+        rw [hdapex]; exact this
+    · refine ⟨rim, by rw [hverts]; simp, hrim, ?_, ?_⟩
+      · intro q hq
+        have := bound q hq
+        rw [max_eq_right hAB] at this
+        rw [hdrim]; nlinarith
+      · intro hcase
+        refine ⟨hrim, fun q hq => ?_⟩
+        have := bound q hq
+        rw [max_eq_right hAB] at this
+        rw [hdrim, hexact hcase]; linarith
+  · have hverts : rim ∈ (coneFeature hh r dir).verts := by
+      simp only [coneFeature, c, if_false, rim, ← hd2]
+      simp
+    push Not at c
+    have hAB : dir.y * hh ≤ n * r - dir.y * hh := by nlinarith [mul_nonneg hn0 hr]
+    refine ⟨rim, hverts, hrim, ?_, ?_⟩
+    · intro q hq
+      have := bound q hq
+      rw [max_eq_right hAB] at this
+      rw [hdrim]; nlinarith
+    · intro hcase
+      refine ⟨hrim, fun q hq => ?_⟩
+      have := bound q hq
+      rw [max_eq_right hAB] at this
+      rw [hdrim, hexact hcase]; linarith
+
+example : (0:ℚ) < 1 ∧ (0:ℚ) ≤ 2 := by norm_num
+
+
 /-! ## degenerate-direction guards: the fallback branch is correct, and the guards cannot be weakened or dropped
 
 The variants below are *not* models of the code: they are the code with one guard altered, and each theorem exhibits an
@@ -432,6 +651,34 @@ private theorem sqrt_unique' (hs : LawfulSqrt sq) {x y : K} (hy : 0 ≤ y) (h : 
   rcases mul_self_eq_mul_self_iff.1 h3 with e | e
   · exact e
   · exact le_antisymm (by linarith) (by linarith)
+
+/-- **C10 (the tolerance of the cylinder feature is real)**: in the gap `0 < |(dir.x, dir.z)| ≤ eps` the `try_normalize`
+fallback replaces the radial direction by `(1, 0)`; for `dir = (3t, 1, 4t)` with `0 < 5t ≤ eps` no vertex of the returned cap
+square is an exact support point (the rim point `(3r/5, hh, 4r/5)` is strictly better than each of them) — so the exact
+statement is false and `cylinder_feature_near_support` is the right one. -/
+theorem cylinder_feature_gap (hs : LawfulSqrt sq) (t hh r : K) (ht : 0 < t)
+    (hte : letI := fieldNum K sq; 5 * t ≤ eps) (hh0 : 0 ≤ hh) (hr : 0 < r) :
+    letI := fieldNum K sq
+    ∀ v ∈ (cylinderFeature hh r ⟨3 * t, 1, 4 * t⟩).verts, ¬ IsSupport3 sq (Cylinder.mk hh r).Mem ⟨3 * t, 1, 4 * t⟩ v := by
+  letI : Num K := fieldNum K sq
+  have hn : sq (3 * t * (3 * t) + 4 * t * (4 * t)) = 5 * t := sqrt_unique' sq hs (by linarith) (by ring)
+  have hcap : capDir (⟨3 * t, 1, 4 * t⟩ : V3 K) = (⟨1, 0⟩ : V2 K) := by
+    simp [capDir, tryNormalize2, V2.norm, V2.normSq, V2.dot, fieldNum_sqrt, hn, hte]
+  have hq : (Cylinder.mk hh r).Mem (⟨3 * r / 5, hh, 4 * r / 5⟩ : V3 K) := by
+    refine ⟨⟨by linarith, le_refl _⟩, ?_⟩
+    apply le_of_eq; ring
+  have hhalf : ¬ (@nabs K (fieldNum K sq) (1 : K) < @lit K (fieldNum K sq) 1 2) := by
+    rw [fieldNum_nabs, fieldNum_lit]
+    have : ((mkRat 1 2 : ℚ) : K) = 1 / 2 := by norm_num
+    rw [this, abs_one]; norm_num
+  intro v hv
+  rintro ⟨_, hmax⟩
+  have h := hmax _ hq
+  unfold cylinderFeature at hv
+  simp only [hcap, copysign_field, abs_of_nonneg hh0, hhalf, if_false, show ¬ ((1 : K) < 0) by norm_num] at hv
+  simp only [List.mem_cons, List.not_mem_nil, or_false] at hv
+  rcases hv with rfl | rfl | rfl | rfl <;> simp only [V3.dot] at h <;> nlinarith [mul_pos ht hr]
+
 
 /-- **C10 (capsule, the fallback branch)**: on the zero vector `Unit::try_new(dir, 0.0)` fails and the code falls back to
 `+Y`; the result is the `+Y` support point, a point of the capsule (and `0·p` is trivially maximal). -/
